@@ -159,6 +159,18 @@ Proof.
 Qed.
 Print Assumptions c15_units_propagate_errors.
 
+(* ... and not only the calls the units name: in EVERY hook, every leaf under an ApplyFuncIfNoError
+   that is not a plain read hands its error on to the nearest wrap above it (no closure anywhere in
+   the 13 hooks drops the error of a state-changing call) *)
+Theorem c15_wrapped_writes_propagate :
+  forall l, In l (all_root_leaves hook_table) -> under_wrap (lf_path l) = true -> is_read_leaf l = false ->
+  err_reaches_wrap (lf_path l) = true.
+Proof.
+  intros l Hl Hw Hr. pose proof wrapped_leaves_propagate_table as H. rewrite forallb_forall in H.
+  specialize (H l Hl). unfold wrapped_leaf_propagates in H. rewrite Hw, Hr in H. exact H.
+Qed.
+Print Assumptions c15_wrapped_writes_propagate.
+
 (* the V2 borrow unit (one LiquidateIndividualBorrow) used to be the class kf_C15_1: the loop of
    LiquidateBorrows called it WITHOUT a wrap and returned at the first error.  Repaired by fix
    C09-F3 / C15-F1 (each borrow inside ApplyFuncIfNoError): on the regenerated table the unit is
@@ -382,3 +394,89 @@ Example c15_wiring :
     "liquidity.AppModule.BeginBlock"; "liquidity.AppModule.EndBlock"; "market.AppModule.BeginBlock";
     "rewards.AppModule.BeginBlock"; "rewards.AppModule.EndBlock"]%string.
 Proof. vm_compute. reflexivity. Qed.
+
+(* ---- the error-return half on REAL regenerated rows ---- *)
+(* one vault of three reports failure after it has written (the fixed-price vault whose debt asset
+   has no price: collateral sent, locked vault stored, then the auction cannot start): the closure of
+   LiquidateVaults hands the error on, the writes are dropped, vaults 0 and 2 are liquidated *)
+Example c15_v2_vault_error_dropped :
+  run_hook (fun n idx (s : Z) =>
+              if String.eqb n "liquidationsV2.LiquidateIndividualVault"
+              then match idx with [1%nat] => RunErr (s + 100) 1 | [j] => RunOk (s + Z.of_nat j + 1) | _ => RunOk s end
+              else RunOk s)
+           (fun _ _ _ _ => false) (fun _ _ _ => 3%nat)
+           (resolved hook_table "liquidationsV2.LiquidateVaults") 0
+  = Returned 4.
+Proof. vm_compute. reflexivity. Qed.
+
+(* the same loop with the closure of seeded change C15-1 (the error is logged, the closure returns
+   nil): the failing vault's partial writes are committed *)
+Example c15_v2_vault_error_swallowed_commits :
+  run_hook (fun n idx (s : Z) => match idx with [1%nat] => RunErr (s + 100) 1 | [j] => RunOk (s + Z.of_nat j + 1) | _ => RunOk s end)
+           (fun _ _ _ _ => false) (fun _ _ _ => 3%nat)
+           (ForEach "newVaults" (Seq [Wrapped (Seq [OnErr SwallowsErr (Call "liquidationsV2.LiquidateIndividualVault" Writes)])])) 0
+  = Returned 104 /\
+  unit_propagates_error
+    [("liquidationsV2.BeginBlocker",
+      ForEach "newVaults" (Seq [Wrapped (Seq [OnErr SwallowsErr (Call "liquidationsV2.LiquidateIndividualVault" Writes)])]))]
+    (mkUnit "v2.vault" "liquidationsV2.BeginBlocker" "newVaults" ["liquidationsV2.LiquidateIndividualVault"]) = false.
+Proof. vm_compute. split; reflexivity. Qed.
+
+(* regression of C15-F4 on the REAL regenerated row of rewards.BeginBlocker: the locker distribution
+   reports failure after it has paid out (+100); it is rolled back as a whole and the epoch update
+   (+1) and the four other distributions (+2 +4 +8 +16) are kept.  Before the fix the row was one
+   closure with OnErr SwallowsErr around every distribution and the result 131. *)
+Example c15_rewards_step_fails_late :
+  run_hook (fun n idx (s : Z) =>
+              if String.eqb n "rewards.TriggerAndUpdateEpochInfos" then RunOk (s + 1)
+              else if String.eqb n "rewards.DistributeExtRewardLocker" then RunErr (s + 100) 1
+              else if String.eqb n "rewards.DistributeExtRewardVault" then RunOk (s + 2)
+              else if String.eqb n "rewards.DistributeExtRewardLend" then RunOk (s + 4)
+              else if String.eqb n "rewards.CombinePSMUserPositions" then RunOk (s + 8)
+              else if String.eqb n "rewards.DistributeExtRewardStableVault" then RunOk (s + 16)
+              else RunOk s)
+           (fun _ _ _ _ => false) (fun _ _ _ => 0%nat)
+           (resolved hook_table "rewards.BeginBlocker") 0
+  = Returned 31.
+Proof. vm_compute. reflexivity. Qed.
+
+(* regression of C15-F5 on the REAL regenerated row of esm.BeginBlocker, two apps: the vault
+   redemption step of app 0 reports failure after it has moved the first vaults (+100): it is rolled
+   back as a whole, the other steps of app 0 (+1 +4 +8 +16) and all steps of app 1 (+31) are kept.
+   Before the fix: one closure, OnErr SwallowsErr around every step, result 160. *)
+Example c15_esm_step_fails_late :
+  run_hook (fun n idx (s : Z) =>
+              if String.eqb n "esm.SnapshotOfPrices" then RunOk (s + 1)
+              else if String.eqb n "esm.SetUpCollateralRedemptionForVault"
+                   then match idx with [0%nat] => RunErr (s + 100) 1 | _ => RunOk (s + 2) end
+              else if String.eqb n "esm.SetUpCollateralRedemptionForStableVault" then RunOk (s + 4)
+              else if String.eqb n "esm.SetUpDebtRedemptionForCollector" then RunOk (s + 8)
+              else if String.eqb n "esm.SetUpShareCalculation" then RunOk (s + 16)
+              else RunOk s)
+           (fun _ _ _ _ => false) (fun _ _ _ => 2%nat)
+           (resolved hook_table "esm.BeginBlocker") 0
+  = Returned 60.
+Proof. vm_compute. reflexivity. Qed.
+
+(* every closure body of the regenerated table hands on every error it reads (no SwallowsErr /
+   UnrecognisedErr frame anywhere under a wrap of the V2 sweeps): the general theorem
+   c15_no_failure_committed applies to the real rows *)
+Example c15_real_rows_hand_on_errors :
+  hands_on_errors (resolved hook_table "liquidationsV2.LiquidateVaults") = true /\
+  hands_on_errors (resolved hook_table "liquidationsV2.LiquidateBorrows") = true /\
+  hands_on_errors (resolved hook_table "liquidationsV2.LiquidateForSurplusAndDebt") = true /\
+  hands_on_errors (resolved hook_table "auctionsV2.AuctionIterator") = true /\
+  hands_on_errors (resolved hook_table "auctionsV2.LimitOrderBid") = true /\
+  hands_on_errors (resolved hook_table "rewards.BeginBlocker") = true /\
+  hands_on_errors (resolved hook_table "esm.BeginBlocker") = true /\
+  hands_on_errors (resolved hook_table "lend.BeginBlocker") = true /\
+  hands_on_errors (resolved hook_table "liquidity.EndBlocker") = true.
+Proof. vm_compute. repeat split; reflexivity. Qed.
+
+(* ApplyFuncIfNoError as read from the source, run on concrete units of work *)
+Example c15_apply_shape_runs :
+  run_apply apply_func_shape (fun s : Z => RunErr (s + 100) 1) 7 = AppReturned 7 /\
+  run_apply apply_func_shape (fun s : Z => RunPanic (s + 100)) 7 = AppReturned 7 /\
+  run_apply apply_func_shape (fun s : Z => RunOk (s + 100)) 7 = AppReturned 107 /\
+  table_says_apply_atomic = true.
+Proof. vm_compute. repeat split; reflexivity. Qed.
